@@ -123,21 +123,24 @@ func runC20(c *Ctx) {
 		c.mustCallAllStores("G-order", "History.RollbackTo|height updated", f, "History", "height")
 	}
 	if f := c.fn(u, "History", "SeekTo"); f != nil {
-		rs := ssau.CallsIn(f, hcRollback)
-		cs := ssau.CallsIn(f, hcCommit)
-		ok := len(rs) == 1 && len(cs) == 1 && dirOf(rs[0]) == "descending" && dirOf(cs[0]) == "ascending"
+		// the walking loops may live in helpers of History that SeekTo calls
+		rs := callsVia(f, hcRollback)
+		cs := callsVia(f, hcCommit)
+		ok := len(rs) == 1 && len(cs) == 1 && dirOf(rs[0].call) == "descending" && dirOf(cs[0].call) == "ascending"
 		c.R.Check("A-order", "History.SeekTo|rollback descending, commit ascending", ok, c.pos(f.Pos()), "seek back walks heights down, seek forward walks them up")
 	}
 	if f := c.fn(u, "History", "Commit"); f != nil {
-		var replay, cached ssa.CallInstruction
-		for _, ci := range ssau.CallsIn(f, hcCommit) {
-			if indexOfElement(ci.Common().Args[0]) != nil {
-				replay = ci
+		var replay, cached ssa.Instruction
+		replayDir := "unknown"
+		for _, vc := range callsVia(f, hcCommit) {
+			if indexOfElement(vc.call.Common().Args[0]) != nil {
+				replay = vc.anchor()
+				replayDir = dirOf(vc.call)
 			} else {
-				cached = ci
+				cached = vc.anchor()
 			}
 		}
-		ok := replay != nil && cached != nil && dirOf(replay) == "ascending"
+		ok := replay != nil && cached != nil && replayDir == "ascending"
 		c.R.Check("A-order", "History.Commit|replay ascending", ok, c.pos(f.Pos()), "the replay of seeked-back heights walks them ascending; the cached changes are committed afterwards")
 		// eviction = a store to h.changes of a re-slice of h.changes
 		var evict *ssa.Store
@@ -152,11 +155,11 @@ func runC20(c *Ctx) {
 		}
 		okEv := evict != nil && replay != nil
 		if okEv {
-			okEv = !ssau.ReachAfter(f, evict, nil).Instr(replay.(ssa.Instruction))
+			okEv = !ssau.ReachAfter(f, evict, nil).Instr(replay)
 		}
 		c.R.Check("G-order", "History.Commit|replay before eviction", okEv, c.pos(f.Pos()), "the replay loop indexes h.changes from its end and is not reachable after the oldest height was evicted")
 		if cached != nil && replay != nil {
-			c.R.Check("G-order", "History.Commit|cached changes after replay", ssau.ReachAfter(f, replay, nil).Instr(cached.(ssa.Instruction)), c.pos(f.Pos()), "the new height's changes are applied after the replay")
+			c.R.Check("G-order", "History.Commit|cached changes after replay", ssau.ReachAfter(f, replay, nil).Instr(cached), c.pos(f.Pos()), "the new height's changes are applied after the replay")
 		}
 	}
 	if f := c.fn(u, "History", "Append"); f != nil {
